@@ -90,6 +90,31 @@ func c07Index(t codon.Table, desc string) *c07Table {
 	return x
 }
 
+// withWeights is the model of re-weighting the same table storage in place:
+// same codon.Table value (same slices), new weights.
+func (x *c07Table) withWeights(w func(letter, triplet string) int, desc string) *c07Table {
+	n := &c07Table{t: x.t, desc: desc, letter: x.letter, w: map[string]map[string]int{}, sum: map[string]int{}}
+	var letters []string
+	for l := range x.w {
+		letters = append(letters, l)
+	}
+	sort.Strings(letters)
+	for _, l := range letters {
+		n.w[l] = map[string]int{}
+		for tr := range x.w[l] {
+			v := w(l, tr)
+			n.w[l][tr] = v
+			n.sum[l] += v
+		}
+		if n.sum[l] > 0 {
+			n.usable = append(n.usable, l)
+		} else {
+			n.dead = append(n.dead, l)
+		}
+	}
+	return n
+}
+
 func (x *c07Table) eligible(letter, triplet string) bool {
 	w := x.w[letter][triplet]
 	return w > 0 && 10*w > x.sum[letter]
@@ -176,14 +201,14 @@ type c07Call struct {
 }
 
 type c07Scenario struct {
-	Mode    string    `json:"mode"`
-	Table   string    `json:"table"`
-	Tables  []string  `json:"tables,omitempty"`
-	Calls   []c07Call `json:"calls,omitempty"`
-	Draws   int       `json:"codon_draws,omitempty"`
-	Cells   int       `json:"cells_tested,omitempty"`
-	Worst   string    `json:"least_likely_cell,omitempty"`
-	Panics  []core.PanicRec `json:"panics,omitempty"`
+	Mode   string          `json:"mode"`
+	Table  string          `json:"table"`
+	Tables []string        `json:"tables,omitempty"`
+	Calls  []c07Call       `json:"calls,omitempty"`
+	Draws  int             `json:"codon_draws,omitempty"`
+	Cells  int             `json:"cells_tested,omitempty"`
+	Worst  string          `json:"least_likely_cell,omitempty"`
+	Panics []core.PanicRec `json:"panics,omitempty"`
 }
 
 func c07ClockStep(t *core.Tape) time.Duration {
@@ -295,19 +320,22 @@ func (c07) Run(t *testing.T, tape *core.Tape, rcx *RunCtx) *core.Result {
 		sc.Tables = append(sc.Tables, tabs[i].desc)
 	}
 	type call struct {
-		op       int // 0 Optimize, 1 ProteinSequence
-		tab      *c07Table
-		protein  string
-		fromGen  bool
+		op        int // 0 Optimize, 1 ProteinSequence
+		tab       *c07Table
+		protein   string
+		fromGen   bool
 		encodable bool
-		reason   string
-		plen     int
-		pseed    int64
-		step     time.Duration
-		dna      string
-		err      error
-		out      string
-		done     bool
+		reason    string
+		plen      int
+		pseed     int64
+		step      time.Duration
+		dna       string
+		err       error
+		out       string
+		done      bool
+		rwSeq     string                    // op 2: re-weight in place through the library from this coding sequence ...
+		rwDirect  map[string]map[string]int // ... or by assigning these weights directly
+		rwDesc    string
 	}
 	maxLen := 2000
 	if concurrent {
@@ -327,7 +355,57 @@ func (c07) Run(t *testing.T, tape *core.Tape, rcx *RunCtx) *core.Result {
 				cl.step = time.Hour
 			}
 			planned += cl.step
-			if tape.Chance(25) {
+			if !concurrent && tape.Chance(12) {
+				// re-weight one of the tables IN PLACE (same storage the previous calls used):
+				// later Optimize calls must follow the new weights
+				cl.op = 2
+				ti := tape.Draw(len(tabs))
+				x := tabs[ti]
+				if tape.Chance(60) {
+					var trip []string
+					for tr := range x.letter {
+						trip = append(trip, tr)
+					}
+					sort.Strings(trip)
+					n := 5 + tape.Draw(300)
+					var b strings.Builder
+					for j := 0; j < n; j++ {
+						b.WriteString(trip[tape.Draw(len(trip))])
+					}
+					cl.rwSeq = b.String()
+					counts := c08Count(cl.rwSeq)
+					cl.rwDesc = fmt.Sprintf("table %d re-weighted in place by OptimizeTable from %d codons", ti, n)
+					tabs[ti] = x.withWeights(func(l, tr string) int { return counts[tr] }, x.desc+" -> re-weighted in place from "+fmt.Sprint(n)+" codons")
+				} else {
+					cl.rwDirect = map[string]map[string]int{}
+					for l, m := range x.w {
+						cl.rwDirect[l] = map[string]int{}
+						for tr := range m {
+							cl.rwDirect[l][tr] = 0
+						}
+					}
+					var ls []string
+					for l := range cl.rwDirect {
+						ls = append(ls, l)
+					}
+					sort.Strings(ls)
+					for _, l := range ls {
+						var ts []string
+						for tr := range cl.rwDirect[l] {
+							ts = append(ts, tr)
+						}
+						sort.Strings(ts)
+						for _, tr := range ts {
+							cl.rwDirect[l][tr] = tape.Draw(6)
+						}
+					}
+					d := cl.rwDirect
+					cl.rwDesc = fmt.Sprintf("table %d: weights 0..5 assigned in place", ti)
+					tabs[ti] = x.withWeights(func(l, tr string) int { return d[l][tr] }, x.desc+" -> tiny weights assigned in place")
+				}
+				cl.tab = x
+				res.Count("probe_table_reweighted_in_place_between_calls", 1)
+			} else if tape.Chance(25) {
 				cl.op = 1
 				cl.plen = 3 + tape.Draw(maxLen-2)
 				if tape.Chance(10) {
@@ -390,13 +468,34 @@ func (c07) Run(t *testing.T, tape *core.Tape, rcx *RunCtx) *core.Result {
 			}
 			plan[c] = append(plan[c], cl)
 			total++
+			if cl.op == 1 && cl.plen > 2 {
+				// every generator output is fed to Optimize by the same caller
+				st := c07ClockStep(tape)
+				if planned+st > c07MaxSimTime {
+					st = time.Hour
+				}
+				planned += st
+				plan[c] = append(plan[c], &call{op: 0, tab: tabs[tape.Draw(len(tabs))], fromGen: true, step: st})
+				total++
+			}
 		}
 	}
 	// generator outputs are fed to Optimize within the same caller
 	var lastGen = make([]string, ncallers)
 	exec := func(c int, cl *call, sleep func(time.Duration)) {
 		sleep(cl.step)
-		if cl.op == 1 {
+		if cl.op == 2 {
+			if cl.rwSeq != "" {
+				cl.tab.t.OptimizeTable(cl.rwSeq)
+			} else {
+				t := cl.tab.t
+				for a := range t.AminoAcids {
+					for k := range t.AminoAcids[a].Codons {
+						t.AminoAcids[a].Codons[k].Weight = cl.rwDirect[t.AminoAcids[a].Letter][t.AminoAcids[a].Codons[k].Triplet]
+					}
+				}
+			}
+		} else if cl.op == 1 {
 			cl.out, cl.err = random.ProteinSequence(cl.plen, cl.pseed)
 			if cl.err == nil {
 				lastGen[c] = cl.out
@@ -408,23 +507,6 @@ func (c07) Run(t *testing.T, tape *core.Tape, rcx *RunCtx) *core.Result {
 			cl.dna, cl.err = codon.Optimize(cl.protein, cl.tab.t)
 		}
 		cl.done = true
-	}
-	// every ProteinSequence call is followed by an Optimize of its output
-	for c := range plan {
-		var np []*call
-		for _, cl := range plan[c] {
-			np = append(np, cl)
-			if cl.op == 1 && cl.plen > 2 {
-				st := c07ClockStep(tape)
-				if planned+st > c07MaxSimTime {
-					st = time.Hour
-				}
-				planned += st
-				np = append(np, &call{op: 0, tab: tabs[tape.Draw(len(tabs))], fromGen: true, step: st})
-				total++
-			}
-		}
-		plan[c] = np
 	}
 	var sim *core.Sim
 	var simTime time.Duration
@@ -477,6 +559,13 @@ func (c07) Run(t *testing.T, tape *core.Tape, rcx *RunCtx) *core.Result {
 			} else if cl.step >= 365*24*time.Hour {
 				res.Count("fault_clock_jump_years", 1)
 			}
+			if cl.op == 2 {
+				cc.Op = cl.rwDesc
+				if rcx.Record {
+					sc.Calls = append(sc.Calls, cc)
+				}
+				continue
+			}
 			if cl.op == 1 {
 				cc.Op = fmt.Sprintf("ProteinSequence(%d, %d)", cl.plen, cl.pseed)
 				cc.Got = clip(cl.out)
@@ -514,6 +603,7 @@ func (c07) Run(t *testing.T, tape *core.Tape, rcx *RunCtx) *core.Result {
 				res.Count("probe_generator_output_fed_to_optimize", 1)
 				if !enc {
 					res.Count("probe_generator_output_unencodable(J)", 1)
+					cl.reason = "generator output contains a residue without positive usage in this table"
 				}
 			}
 			if enc {
